@@ -168,3 +168,15 @@ Theorem s2s_on_space (g c : seq Z) (resp : seq Q) ord s a r plus1 ds :
   s2s_callable g c resp ord s a r plus1 (flatten ds) =
   Ok (strat_pvalue a (count_ge tst [seq evalv s row | row <- rows]) r plus1, tst, [seq evalv s row | row <- rows], rows, [::]).
 Proof. by move=> resp' g' sz dsin; rewrite /s2s_callable (pwg_reps_on_space 0%Q sz dsin). Qed.
+
+Theorem spt_on_space (g c : seq Z) s a r plus1 ds : size c = size g -> (2 <= length (unique c))%coq_nat ->
+  ds \in tuples (prod_draws (sizes g (unique g))) r ->
+  let rows := [seq [seq nth 0%Z c i | i <- pwg_out g t] | t <- ds] in
+  let tst := evalv s (List.map inject_Z c) in
+  let d := [seq evalv s (List.map inject_Z cp) | cp <- rows] in
+  spt_callable g c s a r plus1 (flatten ds) = Ok (Some (strat_pvalue a (count_ge tst d) r plus1, tst, d, rows), [::]).
+Proof.
+move=> sz two dsin; rewrite /spt_callable.
+have -> : (length (unique c) <? 2)%coq_nat = false by apply/Nat.ltb_ge.
+by rewrite (pwg_reps_on_space 0%Z sz dsin).
+Qed.
